@@ -7,6 +7,8 @@ CONSTANTS
   StaleTimeout = TRUE
   StaleLists = FALSE
   ThresholdBefore = TRUE
+  ProbeCheckUpdated = TRUE
+  QuotaErrors = FALSE
   InitStates = {"Queued"}
   B <- BRestart
   MaxHist = 0
